@@ -181,6 +181,7 @@ var defaultStop = []string{
 	"server.NewServerStream", "server.NewServerTransportStream", "server.NewUnaryServerTransportStream",
 	"client.NewStream", "client.NewRpcMultiplexer", "goat.NewGoatOverChannel", "goat.newHandler",
 	"goat.handler.processUnaryRpc",
+	"server.unaryServerTransportStream.GetHeaders", "server.unaryServerTransportStream.GetTrailers",
 }
 
 func (p *Prog) Origins() *originEngine {
